@@ -57,7 +57,7 @@ def run_c12(prop, tier, seed, replay=None):
     }
     return core.finish(prop, tier, seed, "exploration", cov,
                        ["the number P(a, lambda) is computed by the harness oracle, not by the specification (DESIGN.md section 6)"],
-                       t0, violations, {"runner": "trace-gamma", "seed": seed})
+                       t0, violations, {"runner": "trace-gamma", "seed": seed, "opts": {"points": 8 if tier == "quick" else 30, "boundary": 0}})
 
 
 def run_c20(prop, tier, seed, replay=None):
